@@ -6,6 +6,7 @@ import (
 	"go/constant"
 	"go/token"
 	"go/types"
+	"os"
 	"sort"
 
 	"golang.org/x/tools/go/ast/astutil"
@@ -29,9 +30,17 @@ import (
 
 const zInf = int64(1) << 50
 
+var zoneDebug = os.Getenv("ZONEDEBUG") != ""
+
 type zstate struct {
-	n int
-	m []int64 // n*n; m[i*n+j] = c  means  x_i - x_j <= c ; nil = unreachable
+	n   int
+	m   []int64       // n*n; m[i*n+j] = c  means  x_i - x_j <= c ; nil = unreachable
+	neq map[zneq]bool // x_i - x_j != c   (i < j normalised)
+}
+
+type zneq struct {
+	i, j int
+	c    int64
 }
 
 func newTop(n int) *zstate {
@@ -53,7 +62,76 @@ func (s *zstate) clone() *zstate {
 	}
 	c := &zstate{n: s.n, m: make([]int64, len(s.m))}
 	copy(c.m, s.m)
+	if len(s.neq) > 0 {
+		c.neq = make(map[zneq]bool, len(s.neq))
+		for k := range s.neq {
+			c.neq[k] = true
+		}
+	}
 	return c
+}
+
+// excludes: the bounds of s already rule out x_i - x_j == c.
+func (s *zstate) excludes(k zneq) bool {
+	if s.bottom() {
+		return true
+	}
+	if s.m[k.i*s.n+k.j] < k.c {
+		return true
+	}
+	if lo := s.m[k.j*s.n+k.i]; lo < zInf && -lo > k.c {
+		return true
+	}
+	return false
+}
+
+// addNeq records x_i - x_j != c.
+func (s *zstate) addNeq(i, j int, c int64) {
+	if s.bottom() || i == j {
+		return
+	}
+	if i > j {
+		i, j, c = j, i, -c
+	}
+	// already decided?
+	if s.m[i*s.n+j] <= c && s.m[j*s.n+i] <= -c {
+		s.m = nil // x_i - x_j == c is implied
+		return
+	}
+	if s.neq == nil {
+		s.neq = map[zneq]bool{}
+	}
+	s.neq[zneq{i, j, c}] = true
+	s.tighten()
+}
+
+// tighten applies the recorded disequalities at the bounds, and detects violated ones.
+func (s *zstate) tighten() {
+	for changed := true; changed && !s.bottom(); {
+		changed = false
+		for k := range s.neq {
+			i, j, c := k.i, k.j, k.c
+			ub := s.m[i*s.n+j]  // x_i - x_j <= ub
+			lb := -s.m[j*s.n+i] // x_i - x_j >= lb
+			if s.m[j*s.n+i] >= zInf {
+				lb = -zInf
+			}
+			if ub == c && lb == c {
+				s.m = nil
+				return
+			}
+			if ub == c {
+				s.addRaw(i, j, c-1)
+				changed = true
+			} else if lb == c {
+				s.addRaw(j, i, -(c + 1))
+				changed = true
+			}
+			if s.bottom() {
+				return
+			}
+		}
+	}
 }
 
 func zadd(a, b int64) int64 {
@@ -70,8 +148,15 @@ func zadd(a, b int64) int64 {
 	return r
 }
 
-// add the constraint x_i - x_j <= c, keeping the matrix closed.
+// add the constraint x_i - x_j <= c, keeping the matrix closed and the disequalities applied.
 func (s *zstate) add(i, j int, c int64) {
+	s.addRaw(i, j, c)
+	if len(s.neq) > 0 && !s.bottom() {
+		s.tighten()
+	}
+}
+
+func (s *zstate) addRaw(i, j int, c int64) {
 	if s.bottom() || i == j && c >= 0 {
 		return
 	}
@@ -123,6 +208,11 @@ func (s *zstate) forget(i int) {
 			s.m[k*n+i] = zInf
 		}
 	}
+	for k := range s.neq {
+		if k.i == i || k.j == i {
+			delete(s.neq, k)
+		}
+	}
 }
 
 // closeFull recomputes the closure (Floyd-Warshall); used after widening.
@@ -165,6 +255,24 @@ func zjoin(a, b *zstate) *zstate {
 			r.m[i] = b.m[i]
 		}
 	}
+	// a disequality survives when the other side has it too, or excludes the value by its bounds
+	for k := range r.neq {
+		if b.neq[k] || b.excludes(k) {
+			continue
+		}
+		delete(r.neq, k)
+	}
+	for k := range b.neq {
+		if r.neq[k] {
+			continue
+		}
+		if a.excludes(k) {
+			if r.neq == nil {
+				r.neq = map[zneq]bool{}
+			}
+			r.neq[k] = true
+		}
+	}
 	return r
 }
 
@@ -182,6 +290,11 @@ func zwiden(old, new *zstate) *zstate {
 			r.m[i] = zInf
 		}
 	}
+	for k := range r.neq {
+		if !new.neq[k] && !new.excludes(k) {
+			delete(r.neq, k)
+		}
+	}
 	return r
 }
 
@@ -197,17 +310,24 @@ func zleq(a, b *zstate) bool { // a ⊑ b
 			return false
 		}
 	}
+	for k := range b.neq {
+		if a.neq[k] || a.excludes(k) {
+			continue
+		}
+		return false
+	}
 	return true
 }
 
 // BoundSite is one index or slice expression with the verdict of the analysis.
 type BoundSite struct {
-	Instr   ssa.Instruction
-	Kind    string // "index" | "slice"
-	Expr    string // source text of the expression (types.ExprString), "" when not found
-	Proved  bool
-	Missing string // which bound could not be established
-	Dead    bool   // the site is unreachable under the established facts
+	Instr       ssa.Instruction
+	Kind        string // "index" | "slice"
+	Expr        string // source text of the expression (types.ExprString), "" when not found
+	Proved      bool
+	Missing     string // which bound could not be established
+	Dead        bool   // the site is unreachable under the established facts
+	Partitioned bool   // proved by case analysis over the last edge into a dominating merge block
 }
 
 // ZoneResult is the outcome for one function.
@@ -219,17 +339,31 @@ type ZoneResult struct {
 }
 
 type zoneFn struct {
-	p      *Prog
-	fn     *ssa.Function
-	vars   map[ssa.Value]int
-	lens   map[ssa.Value]int
-	names  []string
-	frozen bool
-	tmp0   int // first scratch variable
-	ntmp   int
-	rpo    []*ssa.BasicBlock
-	rpoIdx map[*ssa.BasicBlock]int
-	in     map[*ssa.BasicBlock]*zstate
+	p          *Prog
+	fn         *ssa.Function
+	vars       map[ssa.Value]int
+	lens       map[ssa.Value]int
+	mems       map[memKey]int // contents of an immutable string at (root, offset): one variable per structural key
+	memOf      map[int][]int  // variable -> memory variables whose key mentions it
+	names      []string
+	frozen     bool
+	tmp0       int // first scratch variable
+	ntmp       int
+	rpo        []*ssa.BasicBlock
+	rpoIdx     map[*ssa.BasicBlock]int
+	in         map[*ssa.BasicBlock]*zstate
+	blockFacts map[*ssa.BasicBlock]FactSet
+}
+
+type memKey struct {
+	seq  ssa.Value
+	root int
+	off  int64
+}
+
+func isBoolT(t types.Type) bool {
+	b, ok := t.Underlying().(*types.Basic)
+	return ok && b.Info()&types.IsBoolean != 0
 }
 
 func isSignedInt(t types.Type) bool {
@@ -334,10 +468,36 @@ func (z *zoneFn) lenTerm(x ssa.Value) (int, int64, bool) {
 func (z *zoneFn) lin(v ssa.Value) (int, int64, bool) {
 	switch x := v.(type) {
 	case *ssa.Const:
+		if b, ok := ConstBool(x); ok {
+			if b {
+				return 0, 1, true
+			}
+			return 0, 0, true
+		}
 		if c, ok := ConstInt(x); ok && c > -zInf/4 && c < zInf/4 {
 			return 0, c, true
 		}
 		return 0, 0, false
+	case *ssa.Index:
+		// a byte of an immutable string: the same (string, index term) is the same value
+		if b, ok := x.X.Type().Underlying().(*types.Basic); ok && b.Info()&types.IsString != 0 {
+			z.lenTerm(x.X)
+			if ri, rk, ok := z.lin(x.Index); ok {
+				k := memKey{seqRoot(x.X), ri, rk}
+				if mi, ok := z.mems[k]; ok {
+					return mi, 0, true
+				}
+				if !z.frozen {
+					mi := z.newVar(fmt.Sprintf("%s[%s%+d]", x.X.Name(), z.names[ri], rk))
+					z.mems[k] = mi
+					z.memOf[ri] = append(z.memOf[ri], mi)
+					if li, ok := z.lens[seqRoot(x.X)]; ok {
+						z.memOf[li] = append(z.memOf[li], mi)
+					}
+					return mi, 0, true
+				}
+			}
+		}
 	case *ssa.BinOp:
 		if isSignedInt(x.Type()) {
 			switch x.Op {
@@ -378,11 +538,19 @@ func (z *zoneFn) lin(v ssa.Value) (int, int64, bool) {
 			return z.lin(x.X)
 		}
 	}
-	if !isIntegerT(v.Type()) {
+	if !isIntegerT(v.Type()) && !isBoolT(v.Type()) {
 		return 0, 0, false
 	}
 	i, ok := z.varOf(v)
 	return i, 0, ok
+}
+
+// kill forgets variable i and every memory variable whose key mentions it.
+func (z *zoneFn) kill(s *zstate, i int) {
+	s.forget(i)
+	for _, m := range z.memOf[i] {
+		s.forget(m)
+	}
 }
 
 func (p *Prog) sizeof(t types.Type) int64 {
@@ -431,6 +599,17 @@ func (z *zoneFn) applyCond(s *zstate, cond ssa.Value, val bool) {
 	if s.bottom() {
 		return
 	}
+	// the condition as a 0/1 variable (bool phis, parameters, results)
+	if vi, ok := z.vars[cond]; ok && isBoolT(cond.Type()) {
+		if val {
+			s.add(0, vi, -1)
+		} else {
+			s.add(vi, 0, 0)
+		}
+		if s.bottom() {
+			return
+		}
+	}
 	switch c := cond.(type) {
 	case *ssa.UnOp:
 		if c.Op == token.NOT {
@@ -467,7 +646,7 @@ func (z *zoneFn) applyCond(s *zstate, cond ssa.Value, val bool) {
 			}
 			return
 		}
-		if !isSignedInt(c.X.Type()) && !isIntegerT(c.X.Type()) {
+		if !isIntegerT(c.X.Type()) && !isBoolT(c.X.Type()) {
 			return
 		}
 		i, ki, ok1 := z.lin(c.X)
@@ -504,15 +683,8 @@ func (z *zoneFn) applyCond(s *zstate, cond ssa.Value, val bool) {
 			s.le(i, ki, j, kj, 0)
 			s.le(j, kj, i, ki, 0)
 		case token.NEQ:
-			if s.bottom() {
-				return
-			}
-			// integer tightening at a bound
-			if s.holdsLe(i, ki, j, kj) && !s.holdsLe(i, ki, j, kj-1) {
-				s.le(i, ki, j, kj, -1)
-			} else if s.holdsLe(j, kj, i, ki) && !s.holdsLe(j, kj, i, ki-1) {
-				s.le(j, kj, i, ki, -1)
-			}
+			// x_i + ki != x_j + kj
+			s.addNeq(i, j, kj-ki)
 		}
 	case *ssa.Call:
 		cal := Callee(c)
@@ -543,11 +715,22 @@ func (z *zoneFn) applyFacts(s *zstate, fs FactSet) {
 // define: value v gets a new instance: drop what was known about its variable(s).
 func (z *zoneFn) define(s *zstate, v ssa.Value) {
 	if i, ok := z.vars[v]; ok {
-		s.forget(i)
+		z.kill(s, i)
+		if isBoolT(v.Type()) {
+			s.add(0, i, 0)
+			s.add(i, 0, 1)
+		}
 	}
 	if i, ok := z.lens[v]; ok {
-		s.forget(i)
+		z.kill(s, i)
 		s.add(0, i, 0) // len >= 0
+	}
+	// a byte read from a string: 0..255 (the shared memory variable is not reset: the contents are immutable)
+	if ix, ok := v.(*ssa.Index); ok {
+		if mi, _, ok := z.lin(ix); ok && mi != 0 {
+			s.add(0, mi, 0)
+			s.add(mi, 0, 255)
+		}
 	}
 }
 
@@ -820,6 +1003,16 @@ func (z *zoneFn) indexSite(s *zstate, in ssa.Instruction, seq, idx ssa.Value, si
 	l, kl, okl := z.lenTerm(seq)
 	i, ki, oki := z.lin(idx)
 	if sites != nil {
+		if zoneDebug && !s.bottom() {
+			fmt.Printf("      site %s: neq=%v\n", in, s.neq)
+			for a := 0; a < s.n; a++ {
+				for b := 0; b < s.n; b++ {
+					if a != b && s.m[a*s.n+b] < zInf {
+						fmt.Printf("        %s - %s <= %d\n", z.names[a], z.names[b], s.m[a*s.n+b])
+					}
+				}
+			}
+		}
 		site := BoundSite{Instr: in, Kind: "index", Expr: z.p.ExprAt(in.Pos()), Proved: true}
 		var missing []string
 		if !(oki && s.holdsLe(0, 0, i, ki)) {
@@ -915,7 +1108,7 @@ func (z *zoneFn) edgeOut(end *zstate, pred *ssa.BasicBlock, k int) *zstate {
 		}
 	}
 	for _, a := range as {
-		s.forget(a.dst)
+		z.kill(s, a.dst)
 	}
 	for _, a := range as {
 		if a.tmp >= 0 {
@@ -944,7 +1137,7 @@ func (p *Prog) ZoneAnalyze(fn *ssa.Function) *ZoneResult {
 	if fn.Blocks == nil {
 		return nil
 	}
-	z := &zoneFn{p: p, fn: fn, vars: map[ssa.Value]int{}, lens: map[ssa.Value]int{}, in: map[*ssa.BasicBlock]*zstate{}}
+	z := &zoneFn{p: p, fn: fn, vars: map[ssa.Value]int{}, lens: map[ssa.Value]int{}, mems: map[memKey]int{}, memOf: map[int][]int{}, in: map[*ssa.BasicBlock]*zstate{}}
 	z.newVar("0")
 	// prescan: allocate variables
 	maxPhi := 0
@@ -952,7 +1145,7 @@ func (p *Prog) ZoneAnalyze(fn *ssa.Function) *ZoneResult {
 		nphi := 0
 		for _, in := range b.Instrs {
 			if ph, ok := in.(*ssa.Phi); ok {
-				if isIntegerT(ph.Type()) {
+				if isIntegerT(ph.Type()) || isBoolT(ph.Type()) {
 					z.varOf(ph)
 					nphi++
 				}
@@ -964,6 +1157,14 @@ func (p *Prog) ZoneAnalyze(fn *ssa.Function) *ZoneResult {
 			if v, ok := in.(ssa.Value); ok {
 				if isIntegerT(v.Type()) {
 					z.lin(v)
+				}
+				if isBoolT(v.Type()) {
+					// only bools that are not comparisons need a variable (phis, calls, loads)
+					if _, isCmp := v.(*ssa.BinOp); !isCmp {
+						if u, isNot := v.(*ssa.UnOp); !isNot || u.Op != token.NOT {
+							z.varOf(v)
+						}
+					}
 				}
 				if isSeq(v.Type()) {
 					z.lenTerm(v)
@@ -992,7 +1193,7 @@ func (p *Prog) ZoneAnalyze(fn *ssa.Function) *ZoneResult {
 		}
 	}
 	for _, prm := range fn.Params {
-		if isIntegerT(prm.Type()) {
+		if isIntegerT(prm.Type()) || isBoolT(prm.Type()) {
 			z.varOf(prm)
 		}
 		if isSeq(prm.Type()) {
@@ -1030,55 +1231,145 @@ func (p *Prog) ZoneAnalyze(fn *ssa.Function) *ZoneResult {
 		z.rpoIdx[post[i]] = len(z.rpo)
 		z.rpo = append(z.rpo, post[i])
 	}
-	isHead := map[*ssa.BasicBlock]bool{}
-	for _, b := range z.rpo {
-		for _, s := range b.Succs {
-			if z.rpoIdx[s] <= z.rpoIdx[b] {
-				isHead[s] = true
-			}
-		}
-	}
 
 	entry := newTop(n)
 	for _, li := range z.lens {
 		entry.add(0, li, 0)
 	}
-	// unsigned parameters
 	for v, vi := range z.vars {
-		if _, isPrm := v.(*ssa.Parameter); isPrm && !isSignedInt(v.Type()) {
-			entry.add(0, vi, 0)
+		if _, isPrm := v.(*ssa.Parameter); isPrm {
+			if isBoolT(v.Type()) {
+				entry.add(0, vi, 0)
+				entry.add(vi, 0, 1)
+			} else if !isSignedInt(v.Type()) {
+				entry.add(0, vi, 0)
+			}
 		}
 	}
-	outs := map[*ssa.BasicBlock][]*zstate{}
-	blockFacts := p.Facts(fn)
-	computeIn := func(b *ssa.BasicBlock) *zstate {
-		if b == fn.Blocks[0] {
-			return entry.clone()
+	z.blockFacts = p.Facts(fn)
+	// global solution
+	ins, outs, iters := z.solve(z.rpo, map[*ssa.BasicBlock]*zstate{fn.Blocks[0]: entry})
+	res.Iter = iters
+	for _, b := range z.rpo {
+		z.flow(b, ins[b], &res.Sites, nil)
+	}
+	// sites that are not proved: partition by the last edge taken into a dominating merge block and re-analyse the
+	// region it dominates (sound: every execution reaching the site entered that merge block last through one of
+	// its edges, with a state covered by the global solution for that edge)
+	for si := range res.Sites {
+		site := &res.Sites[si]
+		if site.Proved {
+			continue
 		}
-		var acc *zstate = &zstate{n: n}
-		for _, q := range b.Preds {
-			if !seen[q] {
+		sb := site.Instr.Block()
+		tried := 0
+		for m := sb; m != nil && tried < 6 && !site.Proved; m = m.Idom() {
+			if len(m.Preds) < 2 {
 				continue
 			}
-			os := outs[q]
-			if os == nil {
-				continue
-			}
-			// all successor edges of q that lead to b
-			for k, s := range q.Succs {
-				if s == b && k < len(os) && !os[k].bottom() {
-					acc = zjoin(acc, os[k])
+			tried++
+			// region: blocks dominated by m, in reverse postorder
+			var region []*ssa.BasicBlock
+			for _, b := range z.rpo {
+				if m.Dominates(b) {
+					region = append(region, b)
 				}
 			}
-			break // edges from the same q are all handled in the loop above
+			all, any := true, false
+			for ei, est := range z.entryStates(m, outs, seen, 0) {
+				any = true
+				if zoneDebug {
+					fmt.Printf("  partition at block %d entry %d for %s\n", m.Index, ei, site.Expr)
+				}
+				lins, _, _ := z.solve(region, map[*ssa.BasicBlock]*zstate{m: est})
+				var ls []BoundSite
+				z.flow(sb, lins[sb], &ls, nil)
+				ok := false
+				for _, l := range ls {
+					if l.Instr == site.Instr && l.Proved {
+						ok = true
+					}
+				}
+				if zoneDebug {
+					fmt.Printf("    -> proved=%v sites=%v\n", ok, ls)
+				}
+				if !ok {
+					all = false
+					break
+				}
+			}
+			if any && all {
+				site.Proved = true
+				site.Missing = ""
+				site.Partitioned = true
+			}
 		}
-		// (the loop above handled only the first predecessor; handle the rest, skipping duplicates)
+	}
+	sort.SliceStable(res.Sites, func(i, j int) bool { return res.Sites[i].Instr.Pos() < res.Sites[j].Instr.Pos() })
+	return res
+}
+
+// entryStates lists the states with which block m can be entered, one per incoming edge; an edge from a merge block
+// that merely jumps to m is expanded into that block's own incoming edges (up to three levels), so that the case
+// analysis distinguishes the paths through short-circuit && / || diamonds.
+func (z *zoneFn) entryStates(m *ssa.BasicBlock, outs map[*ssa.BasicBlock][]*zstate, reach map[*ssa.BasicBlock]bool, depth int) []*zstate {
+	var res []*zstate
+	done := map[*ssa.BasicBlock]bool{}
+	for _, q := range m.Preds {
+		if done[q] || !reach[q] {
+			continue
+		}
+		done[q] = true
+		for k, sc := range q.Succs {
+			if sc != m {
+				continue
+			}
+			if depth < 3 && len(q.Preds) >= 2 && len(q.Succs) == 1 {
+				for _, e := range z.entryStates(q, outs, reach, depth+1) {
+					tmp := map[*ssa.BasicBlock][]*zstate{}
+					z.flow(q, e, nil, tmp)
+					if o := tmp[q]; len(o) > k && !o[k].bottom() {
+						res = append(res, o[k])
+					}
+				}
+				continue
+			}
+			if outs[q] != nil && k < len(outs[q]) && !outs[q][k].bottom() {
+				res = append(res, outs[q][k])
+			}
+		}
+	}
+	return res
+}
+
+// solve computes the fixpoint over the given blocks (in reverse postorder). Blocks in `fixed` keep the given entry
+// state (edges into them are ignored); predecessors outside the block set are ignored.
+func (z *zoneFn) solve(blocks []*ssa.BasicBlock, fixed map[*ssa.BasicBlock]*zstate) (map[*ssa.BasicBlock]*zstate, map[*ssa.BasicBlock][]*zstate, int) {
+	n := len(z.names)
+	inSet := map[*ssa.BasicBlock]bool{}
+	idx := map[*ssa.BasicBlock]int{}
+	for i, b := range blocks {
+		inSet[b] = true
+		idx[b] = i
+	}
+	isHead := map[*ssa.BasicBlock]bool{}
+	for _, b := range blocks {
+		for _, s := range b.Succs {
+			if inSet[s] && idx[s] <= idx[b] {
+				isHead[s] = true
+			}
+		}
+	}
+	ins := map[*ssa.BasicBlock]*zstate{}
+	outs := map[*ssa.BasicBlock][]*zstate{}
+	computeIn := func(b *ssa.BasicBlock) *zstate {
+		if f, ok := fixed[b]; ok {
+			return f.clone()
+		}
+		acc := &zstate{n: n}
 		done := map[*ssa.BasicBlock]bool{}
-		if len(b.Preds) > 0 {
-			done[b.Preds[0]] = true
-		}
-		for _, q := range b.Preds[min(1, len(b.Preds)):] {
-			if done[q] || !seen[q] {
+		for _, q := range b.Preds {
+			if done[q] || !inSet[q] {
 				continue
 			}
 			done[q] = true
@@ -1094,46 +1385,14 @@ func (p *Prog) ZoneAnalyze(fn *ssa.Function) *ZoneResult {
 		}
 		return acc
 	}
-	flow := func(b *ssa.BasicBlock, in *zstate, sites *[]BoundSite) {
-		s := in.clone()
-		if !s.bottom() {
-			z.applyFacts(s, blockFacts[b])
-			if len(b.Instrs) > 0 {
-				z.applyFacts(s, p.FactsAt(b.Instrs[0]))
-			}
-		}
-		if s.bottom() && sites != nil {
-			// unreachable under the facts: every site in it is vacuously fine
-			for _, in := range b.Instrs {
-				switch in.(type) {
-				case *ssa.Index, *ssa.IndexAddr:
-					if ia, ok := in.(*ssa.IndexAddr); ok {
-						if _, isMap := ia.X.Type().Underlying().(*types.Map); isMap {
-							continue
-						}
-					}
-					*sites = append(*sites, BoundSite{Instr: in, Kind: "index", Expr: p.ExprAt(in.Pos()), Proved: true, Dead: true})
-				case *ssa.Slice:
-					*sites = append(*sites, BoundSite{Instr: in, Kind: "slice", Expr: p.ExprAt(in.Pos()), Proved: true, Dead: true})
-				}
-			}
-		}
-		for _, in := range b.Instrs {
-			z.transfer(s, in, sites)
-		}
-		os := make([]*zstate, len(b.Succs))
-		for k := range b.Succs {
-			os[k] = z.edgeOut(s, b, k)
-		}
-		outs[b] = os
-	}
 	visits := map[*ssa.BasicBlock]int{}
+	iters := 0
 	for iter := 0; iter < 60; iter++ {
 		changed := false
-		for _, b := range z.rpo {
+		for _, b := range blocks {
 			ni := computeIn(b)
-			old, had := z.in[b]
-			if had && isHead[b] {
+			old, had := ins[b]
+			if _, isFixed := fixed[b]; had && isHead[b] && !isFixed {
 				visits[b]++
 				if visits[b] > 3 {
 					ni = zwiden(old, zjoin(old, ni))
@@ -1145,29 +1404,61 @@ func (p *Prog) ZoneAnalyze(fn *ssa.Function) *ZoneResult {
 			if had && zleq(ni, old) && outs[b] != nil {
 				continue
 			}
-			z.in[b] = ni
+			ins[b] = ni
 			changed = true
-			flow(b, ni, nil)
+			z.flow(b, ni, nil, outs)
 		}
-		res.Iter = iter + 1
+		iters = iter + 1
 		if !changed {
 			break
 		}
 	}
 	// narrowing: two descending passes without widening
 	for pass := 0; pass < 2; pass++ {
-		for _, b := range z.rpo {
+		for _, b := range blocks {
 			ni := computeIn(b)
-			z.in[b] = ni
-			flow(b, ni, nil)
+			ins[b] = ni
+			z.flow(b, ni, nil, outs)
 		}
 	}
-	// final pass: verdicts
-	for _, b := range z.rpo {
-		flow(b, z.in[b], &res.Sites)
+	return ins, outs, iters
+}
+
+// flow pushes a state through block b; records site verdicts when sites != nil and edge states when outs != nil.
+func (z *zoneFn) flow(b *ssa.BasicBlock, in *zstate, sites *[]BoundSite, outs map[*ssa.BasicBlock][]*zstate) {
+	p := z.p
+	s := in.clone()
+	if !s.bottom() {
+		z.applyFacts(s, z.blockFacts[b])
+		if len(b.Instrs) > 0 {
+			z.applyFacts(s, p.FactsAt(b.Instrs[0]))
+		}
 	}
-	sort.SliceStable(res.Sites, func(i, j int) bool { return res.Sites[i].Instr.Pos() < res.Sites[j].Instr.Pos() })
-	return res
+	if s.bottom() && sites != nil {
+		// unreachable under the facts: every site in it is vacuously fine
+		for _, in := range b.Instrs {
+			switch x := in.(type) {
+			case *ssa.Index:
+				*sites = append(*sites, BoundSite{Instr: in, Kind: "index", Expr: p.ExprAt(in.Pos()), Proved: true, Dead: true})
+			case *ssa.IndexAddr:
+				if _, isMap := x.X.Type().Underlying().(*types.Map); !isMap {
+					*sites = append(*sites, BoundSite{Instr: in, Kind: "index", Expr: p.ExprAt(in.Pos()), Proved: true, Dead: true})
+				}
+			case *ssa.Slice:
+				*sites = append(*sites, BoundSite{Instr: in, Kind: "slice", Expr: p.ExprAt(in.Pos()), Proved: true, Dead: true})
+			}
+		}
+	}
+	for _, in := range b.Instrs {
+		z.transfer(s, in, sites)
+	}
+	if outs != nil {
+		os := make([]*zstate, len(b.Succs))
+		for k := range b.Succs {
+			os[k] = z.edgeOut(s, b, k)
+		}
+		outs[b] = os
+	}
 }
 
 // ExprAt returns the source text of the index or slice expression whose '[' is at pos.
